@@ -447,7 +447,7 @@ func genRecord(t *rapid.T) []FieldVal {
 }
 
 func genCase(t *rapid.T) Case {
-	c := Case{Schema: rapid.IntRange(1, 2).Draw(t, "schema"), Topic: rapid.SampledFrom([]string{"ipfix", "flows.v1", "t"}).Draw(t, "topic")}
+	c := Case{Schema: rapid.IntRange(1, 2).Draw(t, "schema"), Topic: rapid.SampledFrom([]string{"ipfix", "flows.v1", "t", "AntreaTopic", "FLOWS_v2", "Flows.Prod-EU"}).Draw(t, "topic")}
 	c.LogSuccesses = rapid.IntRange(0, 2).Draw(t, "log_successes") == 0
 	c.LateProducer = rapid.IntRange(0, 4).Draw(t, "late_producer") == 0
 	if rapid.IntRange(0, 59).Draw(t, "slow") == 0 {
